@@ -367,6 +367,53 @@ def run_multi_source(ds_a, ds_b, acc, rng):
                                 {'asset': asset, 't': str(t)})
 
 
+def run_session_default_handler(ds, acc, rng):
+    """The data handler a trading session builds for itself (no data_handler argument, $QSTRADER_CSV_DATA_DIR) answers
+    for every file of the directory like the data source does - whatever the universe and the dates of the session."""
+    if not ds.adjust:
+        return          # the default source serves adjusted prices
+    from qstrader.trading.backtest import BacktestTradingSession
+    from qstrader.asset.universe.dynamic import DynamicUniverse
+    from qstrader.asset.universe.static import StaticUniverse
+    from qstrader.alpha_model.fixed_signals import FixedSignalsAlphaModel
+    assets = sorted(ds.ev)
+    firsts = [ds.ev[a][0][0] for a in assets if ds.ev[a]]
+    if not firsts:
+        return
+    start = min(firsts) + dt.timedelta(days=rng.randint(0, 3))
+    end = start + dt.timedelta(days=rng.randint(5, 90))
+    if rng.random() < 0.6:
+        # members join at different times: at the start, during the session, on its last day, after its end
+        entries = {a: tstamp(rng.choice([start, start + (end - start) / 2, end - dt.timedelta(hours=3), end + dt.timedelta(days=5)]))
+                   for a in assets}
+        entries[assets[0]] = tstamp(start)
+        universe = DynamicUniverse(entries)
+    else:
+        universe = StaticUniverse(assets[:max(1, len(assets) - 1)])       # one file of the directory is not traded
+    old = os.environ.get('QSTRADER_CSV_DATA_DIR')
+    os.environ['QSTRADER_CSV_DATA_DIR'] = ds.dir
+    try:
+        sess = BacktestTradingSession(tstamp(start), tstamp(end), universe, FixedSignalsAlphaModel({assets[0]: 1.0}),
+                                      rebalance='end_of_month', long_only=True, cash_buffer_percentage=0.05)
+    finally:
+        if old is None:
+            os.environ.pop('QSTRADER_CSV_DATA_DIR', None)
+        else:
+            os.environ['QSTRADER_CSV_DATA_DIR'] = old
+    handler = sess.data_handler
+    for asset in assets:
+        for t in instants(rng, ds.ev[asset])[:25]:
+            try:
+                got = handler.get_asset_latest_bid_price(tstamp(t), asset)
+                check_answer(ds, asset, t, got, 'session.data_handler.bid', acc)
+                got = handler.get_asset_latest_ask_price(tstamp(t), asset)
+                check_answer(ds, asset, t, got, 'session.data_handler.ask', acc)
+            except Violation as v:
+                raise Violation(v.prop, 'session-default-handler/' + v.key, 'data handler built by the session itself from '
+                                '$QSTRADER_CSV_DATA_DIR: ' + v.msg, v.witness)
+            acc.count('C06:session_default_handler_checks')
+
+
 def run_case(case, acc):
     """Replay: case = {'spec': ..., 'seed': n}."""
     rng = random.Random(case.get('seed', 0))
@@ -391,6 +438,8 @@ def shard_c06(spec, acc):
         try:
             try:
                 run_dataset(ds, acc, r2)
+                if i % 2 == 0:
+                    run_session_default_handler(ds, acc, r2)
                 if i % 5 == 0:
                     ds_b = Dataset(r2)
                     try:
